@@ -70,7 +70,7 @@ prop('C07', engine='storesim', profiles={'quick': [('c07', 2400)], 'thorough': [
           'flags, has_data and run invocations vs model; non-trivial = at least one forced task actually re-ran')
 
 
-prop('C18', engine='storesim', profiles={'quick': [('c18', 2400)], 'thorough': [('c18', 60000)]}, level='exploration',
+prop('C18', engine='storesim', profiles={'quick': [('c18', 2400), ('c18zone', 120)], 'thorough': [('c18', 60000), ('c18zone', 1500)]}, level='exploration',
      nontrivial=lambda r: r['stats'].get('records_checked', 0) > 0 and (r['stats'].get('runfaults', 0) > 0 or r['stats'].get('forced_runs', 0) > 0),
      rule='histories mixing successful runs, failing runs (own or upstream), retries in the same chain / a new chain of the same process / a new process, '
           'forced recomputations; every run writes unique markers to its log and run info; run_info and log inspected after each step against the model record '
